@@ -88,6 +88,24 @@ fn with_env(lam_cnt: usize, env: Env, term: Term<NamedDeBruijn>) -> Term<NamedDe
 
             Term::Force(force.into())
         }
+        Term::Constr { tag, fields } => Term::Constr {
+            tag,
+            fields: fields
+                .into_iter()
+                .map(|field| with_env(lam_cnt, env.clone(), field))
+                .collect(),
+        },
+        Term::Case { constr, branches } => {
+            let constr = with_env(lam_cnt, env.clone(), constr.as_ref().clone());
+
+            Term::Case {
+                constr: constr.into(),
+                branches: branches
+                    .into_iter()
+                    .map(|branch| with_env(lam_cnt, env.clone(), branch))
+                    .collect(),
+            }
+        }
         rest => rest,
     }
 }
